@@ -103,6 +103,36 @@ func (ex *Exec) regKey(name string, s smt.Sort, t types.Type) *HeapKey {
 	return k
 }
 
+// ghostKey: the heap component holding a ghost field (declared `ghost name(p *T) R`), indexed by object reference.
+func (ex *Exec) ghostKey(name string, resT types.Type) *HeapKey {
+	return ex.regKey("Z:"+name, smt.ArraySort(smt.Int, ex.W.SortOf(resT)), resT)
+}
+
+// ghostsOf lists the ghost fields declared for objects of type el (in any package's contracts), sorted by name.
+func (ex *Exec) ghostsOf(el types.Type) []*PredDecl {
+	var out []*PredDecl
+	want := "*" + types.TypeString(el, func(p *types.Package) string { return p.Name() })
+	var paths []string
+	for k := range ex.Prog.contracts {
+		paths = append(paths, k)
+	}
+	sort.Strings(paths)
+	for _, k := range paths {
+		pc := ex.Prog.contracts[k]
+		var names []string
+		for n, pd := range pc.Preds {
+			if pd.Kind == "ghost" && len(pd.ParamTypes) == 1 && pd.ParamTypes[0] == want {
+				names = append(names, n)
+			}
+		}
+		sort.Strings(names)
+		for _, n := range names {
+			out = append(out, pc.Preds[n])
+		}
+	}
+	return out
+}
+
 // heapGet returns the current version of a heap component, creating the
 // base version lazily.
 func (ex *Exec) heapGet(st *State, k *HeapKey) *smt.Term {
